@@ -380,3 +380,69 @@ def lean_bridge(run):
         return True
     run.assume("bridge lemma: need-counter validity <=> preorder arity sequence of exactly one unary-binary tree (classical; the Lean proof could not be re-checked in this run: %s)" % why)
     return False
+
+
+# ------------------------------------------------------------ the literal substitution tables of sympy_simplify (C03)
+def subst_tables(run):
+    """Obligations of pyvc/subst_tables.py on the rows of the two `all_expr` tables of simplifier.sympy_simplify, read from the AST of the snapshot.
+    Returns (failed, unsupported): failed = [(name, status, detail, query)] of rows whose obligation is refuted / unknown."""
+    import ast
+    from pyvc import subst_tables as ST
+    rel = "generation/simplifier.py"
+    tree = ast.parse(open(run.src(rel)).read())
+    sym = open(run.src("fitting/sympy_symbols.py")).read()
+    fn = [n for n in ast.walk(tree) if isinstance(n, ast.FunctionDef) and n.name == "sympy_simplify"]
+    fq = "esr/%s::sympy_simplify [substitution tables]" % rel
+    failed, unsupported = [], []
+    if not fn:
+        return failed, ["sympy_simplify not found"]
+    run.add_function(fq, rel, note="rows of the two literal tables `all_expr` (pair combinations with their absolute-value flag; single-parameter patterns with replacement and recorded "
+                                   "inverse map), read from the AST; meaning of square / cube / pow_abs / sqrt_abs / log_abs from the Lambda definitions of esr/fitting/sympy_symbols.py; "
+                                   "quantifier-free nonlinear real arithmetic, power laws applied during translation (A-pow)")
+    obs = ST.obligations(fn[0], sym)
+    for name, st, detail, line, secs, query in obs:
+        if st == "unsupported":
+            unsupported.append("%s (%s)" % (name, detail))
+            continue
+        run.add_obligation("sympy_simplify/tables/" + name, fq, st, "z3-%s (QF_NRA)" % z3.get_version_string(), secs, name, detail=detail)
+        if st != "proved":
+            failed.append((name, st, detail, query))
+    for desc, ok, line in ST.usage_obligations(fn[0]):
+        run.add_obligation("sympy_simplify/tables/" + desc, fq, "proved" if ok else "refuted", "pyvc.subst_tables (AST analysis)", 0.0, desc)
+        if not ok:
+            failed.append((desc, "refuted", None, None))
+    nrows = sum(1 for o in obs if o[1] != "unsupported")
+    if nrows == 0 and not unsupported:
+        unsupported.append("no row obligations generated")
+    run.assume("A-pow: for u > 0:  u**c * u**d = u**(c+d), (u**c)**p = u**(c p), u**1 = u, exp(c log u) = u**c, log(e**c) = c; an integer power of a negative base keeps or drops the sign "
+               "by parity; non-integer powers are considered on positive bases only (real-valued part of the principal branch)",
+               "substitution tables: identities are proved for non-zero parameters (a null set of parameter values is left out); the existential 'every value is attained' through a "
+               "witness menu; a row whose recorded map divides by zero is skipped by the code's `zoo` test (checked structurally)",
+               "sympy's .has / .subs replace exactly the listed sub-expression by the listed replacement (A-sympy); the guard 'the parameter occurs only in this form' is sympy-on-sympy and is bounded only")
+    return failed, unsupported
+
+
+def report_subst_tables(run, failed, unsupported):
+    """Replays refuted rows on the real sympy objects (harness/rt_subst.py); a confirmed one is a violation with its failing input, the others are reported as
+    obligations that no longer hold (no failing input found).  Unsupported rows are a downgrade: the bounded library predicate of C03 decides."""
+    if unsupported:
+        run.downgrades.append({"function": "esr/generation/simplifier.py::sympy_simplify [substitution tables]",
+                               "reason": "rows outside the translator's subset: " + "; ".join(unsupported)[:600]})
+    if not failed or run.violations:
+        return
+    qs = [(f, f[3]) for f in failed if f[3] is not None]
+    answers = []
+    if qs:
+        try:
+            answers = run.harness("rt_subst.py", {"queries": [q for _, q in qs]}, timeout=600).get("answers", [])
+        except Exception as e:       # the replay is an aid; the obligation is reported either way
+            answers = [{"confirmed": False, "error": str(e)[:300]}] * len(qs)
+    for (f, q), a in zip(qs, answers):
+        if a.get("confirmed"):
+            run.violation("tables:" + " ".join(f[0].split())[:100], "sympy_simplify substitution tables: %s -- %s; replayed on the real sympy objects: %s" % (f[0], f[2], a),
+                          {"harness": "rt_subst.py", "payload": {"queries": [q]}, "obligation": f[0], "solver_model": f[2]})
+            return
+    f = failed[0]
+    run.violation("tables:" + " ".join(f[0].split())[:100], "sympy_simplify substitution tables: obligation '%s' is no longer discharged (%s%s); %d obligation(s) failed" % (
+        f[0], f[1], (": " + f[2]) if f[2] else "", len(failed)),
+        {"obligation": f[0], "status": f[1], "solver_output": f[2], "replay_attempts": answers[:4]}, no_input=True)
